@@ -5,7 +5,9 @@ Tie: `persim.heat.evalHeatKernel` / `heat` vs the same model executed at Float (
      values, the radicand k(F,F)+k(G,G)-2k(F,G) and the clamped root.
 [T]: the laws of the statement evaluated directly on the real code (rounding is outside every theorem) — finite, >= 0,
      never NaN (the pre-fix failure on reordered equal diagrams), zero for reorderings, symmetry, diagonal points,
-     diagonal translation, triangle inequality and `<= W1/(4 sigma sqrt(pi))` (reference: persim's wasserstein).
+     diagonal translation, triangle inequality and `<= W1/(4 sigma sqrt(pi))` (reference: persim's wasserstein, see `w1`);
+     a representation stream (integer dtypes of every width, nested lists, tuples, an extra column) with the
+     finite / never-NaN / definition checks on the same numbers (the pre-fix wrap-around on unsigned diagrams).
 """
 import math
 import numpy as np
@@ -20,7 +22,9 @@ RULE = ("pairs/triples of diagrams from one PRNG: sizes 0-8 (thorough 0-14), coo
         "uniform modes (scales 2^-20..2^20), duplicates and diagonal points; kinds random / reordered-equal / nearly-equal "
         "(relative perturbation 1e-3..1e-15) / one or both empty; sigma = 10^U(-3,3), with prob 0.7 multiplied by the squared "
         "coordinate scale so that the kernel is neither all-zero nor flat; non-trivial = both diagrams have an off-diagonal "
-        "point and k(F,G) is above the rounding floor; distinct by digest of (F, G, sigma)")
+        "point and k(F,G) is above the rounding floor; distinct by digest of (F, G, sigma); a representation stream stores "
+        "small-integer diagrams as uint8/int8/uint16/int32/int64/float32 arrays, nested lists, tuples of tuples and arrays "
+        "with a third column and compares with the float64 call and the definition")
 ASSUMPTIONS = [
     "inputs are finite (n,2) arrays or empty lists and sigma > 0 is a finite float (the code has no guard on sigma; the property quantifies over sigma > 0)",
     "np.exp/np.sqrt agree with the model's Float.exp/Float.sqrt up to rounding: kernel values compared to 1e-9 relative plus a "
@@ -29,7 +33,11 @@ ASSUMPTIONS = [
 ]
 RTOL = 1e-9
 FLOOR = 1e-14      # absolute rounding floor per summand exp(..)-exp(..) of the double loop
-STATS = {"w1_reference_persim": 0, "w1_reference_own": 0}
+STATS = {"w1_reference_persim": 0, "w1_reference_own_persim_within_rotation_rounding": 0, "w1_reference_own": 0}
+# theorems that carry a clause of the statement (helper lemmas, concrete instances and rfl restatements such as
+# heat_eq_closed_form / kSum_eq_sum are not in this list)
+CORE_THEOREMS = ["heat_eq_sqrt_d2", "kernel_psd", "heat_self_perm", "heat_symm", "heat_ignores_diagonal", "heat_translate",
+                 "heat_triangle", "w1_stability_bound", "w1_stability"]
 
 
 def H():
@@ -88,9 +96,8 @@ def w1_persim(A, B):
 
 
 def w1_own(A, B):
-    """1-Wasserstein distance (Euclidean ground metric, Euclidean distance to the diagonal) from differences of coordinates;
-    persim's wasserstein goes through sklearn's expanded |x|^2+|y|^2-2xy and loses the small distances of nearly equal
-    diagrams with large coordinates (seen: 5e-9 instead of 1.2e-5 at coordinates 6e6)"""
+    """1-Wasserstein distance (Euclidean ground metric, Euclidean distance to the diagonal) from differences of coordinates,
+    written independently of persim"""
     from scipy.optimize import linear_sum_assignment
     n, m = len(A), len(B)
     if n + m == 0:
@@ -107,11 +114,20 @@ def w1_own(A, B):
 
 
 def w1(A, B):
-    """reference W1: persim's wasserstein where it is accurate, else the difference-based value; returns (value, which)"""
+    """reference W1; returns (value, which).  `persim.wasserstein` is difference-based since /repo 6c9bac1 (it no longer
+    goes through sklearn's expanded |x|^2+|y|^2-2xy), so it is the reference at every scale; what is left is the rounding
+    of its 45-degree rotation onto the diagonal ((d*cos - b*sin) with cos(pi/4) != sin(pi/4) in the last bit), an absolute
+    error of <= 4.5e-16 * sum|coordinates| (measured over 12000 generated pairs) that is visible only when W1 itself is
+    that small (diagonal points, nearly equal diagrams at 2^20).  There the difference-based value is used and the
+    agreement up to that rounding is counted; a disagreement beyond it would make `own` the reference and is counted
+    separately (0 on the current tree)."""
     own, per = w1_own(A, B), w1_persim(A, B)
     if abs(own - per) <= 1e-9 * abs(own) + 1e-300:
         STATS["w1_reference_persim"] += 1
         return per, "persim"
+    if abs(own - per) <= 2e-15 * math.fsum(abs(x) for d in (A, B) for p in d for x in p[:2]):
+        STATS["w1_reference_own_persim_within_rotation_rounding"] += 1
+        return own, "own (persim agrees up to the rounding of its rotation)"
     STATS["w1_reference_own"] += 1
     return own, "own"
 
@@ -226,6 +242,8 @@ def eval_case(c):
         bound = w / (4 * sigma * math.sqrt(math.pi))
         slack = root_err(d2_tol(F, G, sigma, ks, rtol=1e-12), h) + 1e-9 * bound
         return h <= bound + slack, {"heat": h, "W1/(4 sigma sqrt pi)": bound, "W1": w, "W1 reference": which, "slack": slack}
+    if k == "representation":
+        return rep_eval(F, G, sigma, c["repF"], c["repG"])
     raise common.HarnessError("unknown case kind %r" % k)
 
 
@@ -344,6 +362,10 @@ def run(ctx):
                 return
     ctx.extra["max_code_model_discrepancy_dist2_rel"] = worst
     ctx.extra["branch_hits"] = cov.summary()
+    ctx.extra["core_theorems"] = CORE_THEOREMS
+    representations(ctx)
+    if len(ctx.violations) > 5:
+        return
     laws(ctx, nmax)
 
 
@@ -370,6 +392,71 @@ def laws(ctx, nmax):
     ctx.extra["w1_reference"] = dict(STATS)
 
 
+REPS = ["uint8", "int8", "uint16", "int32", "int64", "float32", "lists", "tuples", "extra_column"]
+
+
+def as_rep(D, rep):
+    if rep == "lists":
+        return [[int(p[0]), int(p[1])] for p in D]
+    if rep == "tuples":
+        return tuple((int(p[0]), int(p[1])) for p in D)
+    if rep == "extra_column":
+        return np.array([[p[0], p[1], 3] for p in D], dtype="int64").reshape(-1, 3)
+    return np.array(D, dtype=rep).reshape(-1, 2)
+
+
+def rep_eval(F, G, sigma, repF, repG):
+    """heat on a stored representation of small-integer diagrams: finite, never NaN, equal to the float64 call (the
+    conversion is exact) and to the definition on the same numbers"""
+    with np.errstate(all="ignore"):
+        st, v, _ = call(H().heat, as_rep(F, repF), as_rep(G, repG), sigma)
+    h = ("err:" + v) if st == "err" else float(v)
+    Ff = [[float(p[0]), float(p[1])] for p in F]
+    Gf = [[float(p[0]), float(p[1])] for p in G]
+    ref = code_heat(Ff, Gf, sigma)
+    info = {"heat(representation)": h, "heat(float64 arrays)": ref}
+    if isinstance(h, str) or not math.isfinite(h) or h < 0:
+        return False, info
+    sk = [spec_k(Ff, Ff, sigma), spec_k(Gf, Gf, sigma), spec_k(Ff, Gf, sigma)]
+    d2 = sk[0] + sk[1] - 2 * sk[2]
+    info["definition dist^2"] = d2
+    okd = abs(h * h - max(d2, 0.0)) <= d2_tol(Ff, Gf, sigma, sk)
+    return okd and h == ref, info
+
+
+def representations(ctx):
+    """[T] fix 433e88f (`np.array(dgm, dtype=float)`): the value must not depend on how the numbers are stored"""
+    r = ctx.rng
+    for i in range(ctx.n(270, 2700)):
+        repF = REPS[i % len(REPS)]
+        repG = repF if r.random() < 0.7 else r.choice(REPS)
+        signed = all(x in ("int8", "int32", "int64", "lists", "tuples", "extra_column") for x in (repF, repG))
+        lo = -40 if signed else 0
+
+        def dgm(n0):
+            out = []
+            for _ in range(r.randint(n0, 5)):
+                b = r.randint(lo, 90)
+                out.append([b, b + r.randint(0, 30)])
+            return out
+        F, G = dgm(0), dgm(1)
+        if r.random() < 0.25:
+            G = [list(p) for p in F]
+            r.shuffle(G)
+        if r.random() < 0.5:
+            F, G = G, F
+        sigma = r.choice([0.4, 1.0, 5.0, 50.0, 400.0])
+        ok, info = rep_eval(F, G, sigma, repF, repG)
+        ctx.case({"op": "representation", "F": F, "G": G, "sigma": sigma, "repF": repF, "repG": repG}, bool(F) and bool(G), sample_every=61)
+        ctx.count("representation:" + repF)
+        ctx.test("representation", ok)
+        if not ok:
+            fail(ctx, "heat depends on the stored representation (%s, %s) of the same numbers / is not the definition's value" % (repF, repG),
+                 {"kind": "representation", "F": F, "G": G, "sigma": sigma, "repF": repF, "repG": repG}, info, law=True)
+            if len(ctx.violations) > 5:
+                return
+
+
 def replay(ctx, rep):
     c = rep["case"]
     if "kind" not in c:
@@ -387,22 +474,27 @@ def replay(ctx, rep):
 
 
 MANIFEST = {
-    "text": "Proof: Lean theorems about the model of evalHeatKernel/heat over the reals (Real.exp), for diagrams of every size and "
-            "every sigma > 0: the value is sqrt(max(k(F,F)+k(G,G)-2k(F,G),0)) for the multi-scale kernel; the kernel is symmetric, "
-            "invariant under reordering either argument, gets no contribution from points on the diagonal and is unchanged when both "
-            "diagrams are translated along the diagonal, hence the distance is 0 between reorderings, symmetric, ignores diagonal "
-            "points and is translation invariant; the radicand passed to sqrt is clamped, so heat is a well-defined number >= 0 "
-            "(never NaN) by construction. Beyond the design's plan the analytic clauses are proved too: the kernel is positive "
-            "semi-definite (Gaussian kernel PSD via its power series), so over the reals the clamp is a no-op; the triangle "
-            "inequality (Cauchy-Schwarz/Minkowski for the PSD form); and the stability bound heat <= W1/(4 sigma sqrt(pi)) against "
-            "every partial matching (Euclidean ground metric); a kernel-evaluated IEEE-double witness shows the old radicand negative "
-            "for a reordered diagram. The model is tied to the code on every run by executing it at Float "
+    "text": "Proof: 31 Lean theorems (9 of them core, i.e. each a clause of the statement about the distance itself; the others are "
+            "kernel-level steps, rfl restatements such as heat_eq_closed_form / kSum_eq_sum, by-construction facts and one concrete "
+            "instance) about the model of evalHeatKernel/heat over the reals (Real.exp), for diagrams of every size and "
+            "every sigma > 0: the value is sqrt(k(F,F)+k(G,G)-2k(F,G)) for the multi-scale kernel (heat_eq_sqrt_d2: the kernel is "
+            "positive semi-definite - Gaussian kernel PSD via its power series - so over the reals the clamp of the fix is a no-op); "
+            "it is 0 between reorderings, symmetric, ignores diagonal points, is unchanged when both diagrams are translated along "
+            "the diagonal; the triangle inequality (Cauchy-Schwarz/Minkowski for the PSD form); and the stability bound "
+            "heat <= W1/(4 sigma sqrt(pi)) against every partial matching (Euclidean ground metric). "
+            "`heat_nonneg_finite` / `heat_radicand_nonneg` / `heat_real_nonneg` hold BY CONSTRUCTION over the reals (max(.,0) under "
+            "the root; every real is finite) and say nothing about floating point: 'finite' and 'never NaN' are statements about "
+            "floats and are [T] only - the streams on reordered-equal and nearly-equal diagrams and on integer/list/tuple "
+            "representations of the same numbers (uint8/int8/uint16/int32/int64/float32, an extra column), where the pre-fix code "
+            "returned NaN. A kernel-evaluated IEEE-double witness shows the old radicand negative for a reordered diagram. "
+            "The model is tied to the code on every run by executing it at Float "
             "against evalHeatKernel/heat (kernel values and radicand to 1e-9 plus a rounding floor), against an independent "
             "definition, and all laws are evaluated on the real code as tests.",
     "note": "Trusted: Lean kernel + Mathlib, axioms propext/Classical.choice/Quot.sound; the correspondence harness; np.exp/np.sqrt "
-            "as Real.exp/sqrt up to rounding; persim.wasserstein (where accurate, else a difference-based W1) as the reference of the "
-            "stability test. Theorems are exact-arithmetic; the pre-fix NaN was a rounding effect (negative radicand -1e-17) and is "
-            "guarded only by the [T] stream on reordered equal and nearly equal diagrams.",
+            "as Real.exp/sqrt up to rounding; persim.wasserstein (difference-based since /repo 6c9bac1; confirmed against an "
+            "independent difference-based W1 up to the 4.5e-16*sum|coordinates| rounding of its rotation, which replaces it where "
+            "W1 is that small) as the reference of the stability test. Theorems are exact-arithmetic; the pre-fix NaNs were a "
+            "rounding effect (negative radicand -1e-17) and an integer wrap-around (uint8 diagrams), both guarded only by [T] streams.",
     "technique": "Lean 4 theorems over a hand-written model + differential correspondence with the real code + metamorphic tests",
 }
 MANIFEST["note"] += " " + py2lean.manifest_note("heat")
